@@ -6,7 +6,7 @@ From Coq Require Import List String ZArith.
 From PGT Require Import Base.Strs Base.AList Model.Vals Model.IR Model.Names Model.Desc Model.Build
      Model.CopyTo Model.CopyFrom Model.Schema Model.GoTypes.
 (* the classes the partial theorems are stated for, evaluated on every root of the corpus (coverage report) *)
-From PGT Require Import Proofs.CopyFromProofs Proofs.CopyToTotal Proofs.MsgRoundTrip Proofs.MsgEcho Proofs.EmbeddedProofs Proofs.MsgEchoOneof Proofs.CustomProofs Proofs.ChainProofs.
+From PGT Require Import Proofs.CopyFromProofs Proofs.CopyToTotal Proofs.MsgRoundTrip Proofs.MsgEcho Proofs.EmbeddedProofs Proofs.MsgEchoOneof Proofs.CustomProofs Proofs.ChainProofs Proofs.RoundTripEmbedded.
 
 Definition model_copy_to := copy_to std_hook_to.
 Definition model_copy_from := copy_from std_hook_from.
@@ -18,4 +18,4 @@ Extraction "model.ml" run model_copy_to model_copy_from model_schema_attrs model
   sf32_of_bits sf64_of_bits bits_of_sf32 bits_of_sf64 empty_config
   Z.add Z.mul Z.opp Z.of_nat Z.to_nat Z.compare Z.div Z.modulo Z.eqb Z.ltb
   str_ltb snake_case upper_camel go_name to_single_line json_name
-  run_iops replace_package_name tf_ok flat_ok rt_ok echo_class echo_class2 emb_ok tfc_ok embc_ok.
+  run_iops replace_package_name tf_ok flat_ok rt_ok echo_class echo_class2 emb_ok tfc_ok embc_ok rte_ok.
